@@ -72,6 +72,131 @@ NEST_KINDS = ["parens", "blocks", "unary-minus", "unary-not", "unary-tilde", "ar
               "member", "while", "fn-nest", "else-if", "fmt", "type-nest"]
 
 
+def infinite_type_shapes(quick):
+    """programs whose type constraints are cyclic (a = [a], a = fn() -> a, ...): the occurs check of the unifier is what
+    keeps substitution finite. The variable must arrive on either side of the constraint, through every constructor."""
+    wraps = {
+        "self": lambda x: x, "array": lambda x: f"[{x}]", "array-pair": lambda x: f"[{x}, {x}]", "vec": lambda x: f"Vec[{x}]",
+        "typed-array": lambda x: f"Array[{x}]", "lambda": lambda x: f"fn() {{ return {x} }}", "lambda-param": lambda x: f"fn(a) {{ {x} }}",
+        "lambda-call": lambda x: f"fn() {{ {x} }}()", "group": lambda x: f"({x})", "fmt": lambda x: '"{' + x + '}"',
+        "index": lambda x: f"{x}[0]", "call-result": lambda x: f"{x}()", "if-expr": lambda x: f"if true {{ {x} }} else {{ {x} }}",
+    }
+    def nestw(w, k, x):
+        for _ in range(k):
+            x = wraps[w](x)
+        return x
+    out = []
+    depths = (1, 2, 5) if quick else (1, 2, 3, 5, 20, 150)
+    for w in wraps:
+        for k in depths:
+            if (w in ("self", "group") and k > 1) or (w in ("array-pair", "if-expr") and k > 5):
+                continue          # (the last two double the text per level)
+            for rname, ref in (("fn", "f"), ("result", "f()"), ("rec-arg", "g(n - 1)")):
+                fn, hd = ("g", "fn g(n) {") if rname == "rec-arg" else ("f", "fn f() {")
+                e = nestw(w, k, ref)
+                forms = {
+                    "return": f"{hd} return {e} }}",
+                    "implicit": f"{hd} {e} }}",
+                    "base-first": f"{hd}\n  if true {{ return {nestw(w, k, '1') if w not in ('self', 'group', 'index', 'call-result') else '[]'} }}\n  return {e}\n}}",
+                    "base-last": f"{hd}\n  if true {{ return {e} }}\n  return {ref}\n}}",
+                    "via-let": f"{hd}\n  let r = {ref}\n  return {nestw(w, k, 'r')}\n}}",
+                    "via-mut": f"{hd}\n  let mut r = {ref}\n  r = {nestw(w, k, 'r')}\n  return r\n}}",
+                }
+                for fname, body in forms.items():
+                    out.append((f"inftype-{w}-{rname}-{fname}-{k}", (body + "\nprint(1)").encode()))
+    fixed = {
+        "returns-itself": "fn f() { return f }\nprint(1)",
+        "returns-itself-called": "fn f() { return f }\nprint(f()()()() == f)",
+        "nested-list": "fn build(n) {\n    if n == 0 { return [] }\n    return [build(n - 1)]\n}\nprint(build(3))",
+        "nested-vec": "fn build(n) {\n    if n == 0 { return Vec[null] }\n    return Vec[build(n - 1)]\n}\nprint(build(3))",
+        "self-apply-left": "fn g(x) { return x(x) }\nprint(1)",
+        "self-apply-wrapped": "fn g(x) { return [x(x)] }\nprint(1)",
+        "self-apply-twice": "fn g(x) { return x(x)(x) }\nprint(1)",
+        "self-apply-arg": "fn g(x) { return x([x]) }\nprint(1)",
+        "self-apply-lambda": "let g = fn(x) { x(x) }\nprint(1)",
+        "self-apply-omega": "let g = fn(x) { x(x) }\ng(g)",
+        "self-apply-two-params": "fn g(x, y) { return y(x, y) }\nprint(1)",
+        "self-apply-compare-right": "fn g(x) { return [x] == x }\nprint(1)",
+        "self-apply-compare-left": "fn g(x) { return x == [x] }\nprint(1)",
+        "param-grows": "fn f(x) { return f([x]) }\nprint(1)",
+        "param-grows-result": "fn f(x) { return [f([x])] }\nprint(1)",
+        "param-reassigned": "fn f(mut x) { x = [x]\n return x }\nprint(1)",
+        "param-reassigned-lambda": "fn f(mut x) { x = fn() { x }\n return x }\nprint(1)",
+        "local-reassigned": "let mut a = [1]\na = [a]\nprint(1)",
+        "local-reassigned-swap": "let mut a = [1]\nlet mut b = [a]\na = b\nb = [a]\nprint(1)",
+        "local-fn-reassigned": "let mut h = fn() { 1 }\nh = fn() { h }\nprint(1)",
+        "loop-grows": "let mut a = []\nlet mut i = 0\nwhile i < 3 { a = [a]\n i = i + 1 }\nprint(a)",
+        "for-grows": "let mut a = []\nfor i in 0..3 { a = [a] }\nprint(a)",
+        "mutual-fn": "fn a() { return b }\nfn b() { return a }\nprint(1)",
+        "mutual-result": "fn a() { return [b()] }\nfn b() { return a() }\nprint(1)",
+        "mutual-result-swapped": "fn a() { return b() }\nfn b() { return [a()] }\nprint(1)",
+        "mutual-both-wrap": "fn a() { return [b()] }\nfn b() { return Vec[a()] }\nprint(1)",
+        "mutual-lambda": "fn a() { return fn() { b() } }\nfn b() { return fn() { a() } }\nprint(1)",
+        "mutual-three": "fn a() { return [b()] }\nfn b() { return c() }\nfn c() { return a }\nprint(1)",
+        "mutual-three-results": "fn a() { return b() }\nfn b() { return c() }\nfn c() { return [a()] }\nprint(1)",
+        "mutual-params": "fn a(x) { return b([x]) }\nfn b(y) { return a(y) }\nprint(1)",
+        "mutual-params-fn": "fn a(x) { return b(a) }\nfn b(y) { return a(b) }\nprint(1)",
+        "passes-itself": "fn f(x) { return x }\nprint(f(f)(f) == f)",
+        "passes-itself-rec": "fn f(x) { return f(f) }\nprint(1)",
+        "stores-itself": "fn f() { let v = [f]\n return v }\nprint(1)",
+        "stores-itself-result": "fn f() { let v = [f()]\n return v[0] }\nprint(1)",
+        "annotated-wrong": "fn f() -> int { return f }\nprint(1)",
+        "annotated-array": "fn f() -> Array<int> { return [f()] }\nprint(1)",
+        "annotated-param": "fn f(x: int) { return f(f) }\nprint(1)",
+        "nested-fn-returns-outer": "fn f() {\n  fn g() { return f }\n  return g\n}\nprint(1)",
+        "nested-fn-returns-outer-result": "fn f() {\n  fn g() { return [f()] }\n  return g()\n}\nprint(1)",
+        "closure-captures-self": "fn f() {\n  let h = fn() { return [f()] }\n  return h()\n}\nprint(1)",
+        "method-style": "fn f() { return f().len() }\nfn g() { return [g().len()] }\nprint(1)",
+        "binary-op": "fn f() { return f() + [f()] }\nprint(1)",
+        "binary-op-swapped": "fn f() { return [f()] + f() }\nprint(1)",
+        "ternary-mix": "fn f(c) { if c { return f(false) } else { return [f(true)] } }\nprint(1)",
+        "ternary-mix-swapped": "fn f(c) { if c { return [f(false)] } else { return f(true) } }\nprint(1)",
+        "index-of-self": "fn f() { return f()[0] }\nprint(1)",
+        "index-assign-self": "let mut a = [[1]]\na[0] = a\nprint(1)",
+        "push-self-typed": "let v = Vec[1]\nv.push(v)\nprint(1)",
+        "struct-field-fn": "struct S { g: int }\nfn f() { return S { g: f } }\nprint(1)",
+    }
+    out += [(f"inftype-{k}", v.encode()) for k, v in fixed.items()]
+    return out
+
+
+def did_you_mean_shapes(quick):
+    """an undefined name next to declared names that are close to it (the hint of E0201 compares them character by
+    character): ASCII and non-ASCII names, as locals / parameters / globals / functions, byte length within 2"""
+    out = []
+    pairs = [
+        ("count", "coumt"), ("café", "cafe"), ("cafe", "café"), ("café", "cafè"), ("naïve", "naive"), ("naive", "naïve"), ("über", "uber"),
+        ("日本", "日木"), ("日本語", "日本"), ("πr", "pr"), ("é", "e"), ("e", "é"), ("éé", "ee"), ("ee", "éé"), ("ééé", "éé"), ("éé", "ééé"),
+        ("données", "donnees"), ("donnees", "données"), ("x😀", "x1"), ("x1234", "x😀"), ("ab", "€"), ("€", "ab"), ("€€", "€"), ("a€", "a$b"),
+        ("ñ", "n"), ("straße", "strasse"), ("strasse", "straße"), ("_é", "_e"), ("é1", "e1"), ("Ω", "O"), ("переменная", "переменнaя"),
+    ]
+    if quick:
+        pairs = pairs[:20]
+    ctxs = {
+        "global": lambda d, u: f"let {d} = 1\nprint({u})",
+        "global-mut": lambda d, u: f"let mut {d} = 1\n{u} = 2",
+        "local": lambda d, u: f"fn f() {{\n  let {d} = 1\n  return {u}\n}}\nprint(f())",
+        "param": lambda d, u: f"fn f({d}) {{ return {u} }}\nprint(f(1))",
+        "function": lambda d, u: f"fn {d}() {{ return 1 }}\nprint({u}())",
+        "lambda-param": lambda d, u: f"let g = fn({d}) {{ {u} }}\nprint(g(1))",
+        "loop-var": lambda d, u: f"for {d} in 0..3 {{ print({u}) }}",
+        "block-local": lambda d, u: f"{{ let {d} = 1\n print({u}) }}",
+        "captured": lambda d, u: f"fn f() {{\n  let {d} = 1\n  let g = fn() {{ {u} }}\n  return g()\n}}\nprint(f())",
+        "many": lambda d, u: "\n".join(f"let {d}{c} = 1" for c in "abcé€") + f"\nlet {d} = 1\nprint({u})",
+        "fmt": lambda d, u: f'let {d} = 1\nprint("{{{u}}}")',
+        "call-undefined-fn": lambda d, u: f"let {d} = 1\n{u}(1)",
+        "assign-undefined": lambda d, u: f"fn f() {{\n  let mut {d} = 1\n  {u} += 1\n}}\nf()",
+        "member": lambda d, u: f"needs std.math\nlet {d} = 1\nprint(math.{u}(1))",
+        "struct-field": lambda d, u: f"struct S {{ {d}: int }}\nlet s = S {{ {d}: 1 }}\nprint(s.{u})",
+        "struct-name": lambda d, u: f"struct {d} {{ x: int }}\nlet s = {u} {{ x: 1 }}\nprint(s.x)",
+        "module-alias": lambda d, u: f"needs std.math as {d}\nprint({u}.sqrt(4.0))",
+    }
+    for i, (d, u) in enumerate(pairs):
+        for cn, mk in ctxs.items():
+            out.append((f"didyoumean-{cn}-{i}", mk(d, u).encode()))
+    return out
+
+
 def structured_source(quick):
     out = []
     depths = [10, 100, 250, 1000, 10000] + ([] if quick else [100000])
@@ -125,6 +250,8 @@ def structured_source(quick):
             (f"far-column-wide-span-{col}", ("print(" + "a" * col + ")").encode()),
             (f"far-column-after-multibyte-{col}", ('let s = "' + "\u00e9" * col + '"; print(undefined_thing)').encode()),
         ]
+    out += infinite_type_shapes(quick)
+    out += did_you_mean_shapes(quick)
     big = 20000 if quick else 1000000
     out += [
         ("huge-int", ("let a = " + "9" * big).encode()), ("huge-float", ("let a = 1." + "0" * big + "e999999").encode()),
@@ -532,6 +659,10 @@ CLI_CMDS = {
 def input_class(kind, label, data):
     """decidable class of an input: the generator's label for structured inputs, a predicate for mutants / raw bytes"""
     if not label.startswith(("mut-", "raw", "corpus-")):
+        if label.startswith("inftype-"):
+            return "infinite-type"
+        if label.startswith("didyoumean-"):
+            return "did-you-mean"
         base = re.sub(r"-\d+$", "", label)
         return "expr-expected-at-eof" if re.fullmatch(r"open-(paren|call|bracket|index|if)-at-eof", base) else base
     if kind == "source" and (data.rstrip().endswith((b"(", b"[")) or re.search(rb"(^|[^A-Za-z0-9_])if\s*$", data)) and nesting_depth(data) < 150:
@@ -725,6 +856,11 @@ def run(ctx):
         cap = 40 if quick else 150
         for n, ((kind, label, data), o) in enumerate(zip(inputs, outcomes)):
             structured = not label.startswith(("mut-", "raw"))
+            fam = re.match(r"(inftype|didyoumean)-", label)
+            if fam and quick and not (o or "").startswith(("panic", "crash", "stack-overflow", "alloc-failure", "missing")):
+                per_kind[fam.group(1)] += 1
+                if per_kind[fam.group(1)] % 8 != 1:
+                    continue
             if not structured:
                 per_kind[kind] += 1
                 if per_kind[kind] > cap:
